@@ -20,6 +20,7 @@ TEXT = ("Thin claim: the round-trip sentence of C04 (flatten -> diff -> store ->
         "string value is refused by generate_identifier for user identifiers, generated identifiers hash an injective "
         "encoding of the path and array descriptor identifiers are an injective function of (owner, key) - three open "
         "known findings (F10-F12).")
+TECHNIQUE = 'static analysis over rustc MIR: edge dominance on change tests in update_object/commit, encoder/decoder prefix-table agreement and injectivity of composed identifiers'
 TRUSTED = ["rustc nightly MIR", "effect summaries", "yavomrs returns an empty script for equal sequences"]
 
 
